@@ -25,7 +25,7 @@ thorough = list(quick)
 for pattern in (0b0110, 0b0011, 0b0101, 0b01110, 0b10010):
     thorough.append(job("c20.twice", xproc=40, secs=600, jobs=8, model=TREE, n=5, d=1, reps=8, pattern=pattern))
     thorough.append(job("c20.twice", xproc=40, secs=600, jobs=8, model=TREE, n=4, d=2, reps=8, pattern=pattern))
-    thorough.append(job("c20.twice", xproc=40, secs=300, jobs=2, model=GNB, n=3, d=1, reps=4, pattern=pattern, qto=3000))
+    thorough.append(job("c20.twice", xproc=40, secs=300, jobs=2, allow=("inexact",), model=GNB, n=3, d=1, reps=4, pattern=pattern, qto=3000))
 thorough.append(job("c20.twice", xproc=40, secs=600, jobs=8, model=KM_L1, n=4, d=1, reps=3))
 thorough.append(job("c20.twice", xproc=40, secs=300, jobs=4, model=ENET, n=3, d=1, reps=3, qto=3000))
 thorough.append(job("c20.twice", xproc=40, secs=300, jobs=4, model=SVM, n=3, d=1, reps=3, qto=3000))
